@@ -53,7 +53,7 @@ theorem happy_closeBlock (s : St α) (hs : s.success = true) : Happy (closeBlock
   unfold closeBlock
   split
   · exact ⟨rfl, fun _ => hs⟩
-  · exact happy_closeDestPhase c s hs
+  · exact happy_closeDestPhase c _ hs
 
 theorem happy_ioClose (s : St α) (hs : s.success = true) : Happy (ioClose c s) := by
   unfold ioClose
